@@ -253,6 +253,17 @@ def run_c12(script, rng, summary):
     seen = []
     cfg = {"debug": True} if rng.random() < 0.3 else {}
     count(summary, "run_c12_cfg:" + ("debug" if cfg else "default"))
+    if rng.random() < 0.5 and real.problem.horizon is not None:
+        # enumeration after an optimisation (possibly cut short): an objective restricts nothing, every valid timing
+        # must still be visited
+        script = script + [{"op": "objective", "o": rng.choice([("makespan",), ("flowtime", None), ("startLatest", None),
+                                                                 ("startEarliest",), ("priorities",)])}]
+        real = pslib.Real()
+        if any(r != "ok" for r in real.run(script)):
+            return None
+        if rng.random() < 0.7:
+            cfg["max_iter"] = rng.choice([1, 2, 2, 3])
+        count(summary, "run_c12_after_optimisation" + ("_max_iter" if "max_iter" in cfg else ""))
     with smrun.silent(), no_stderr():
         s = ps.SchedulingSolver(problem=real.problem, max_time=10, **cfg)
         try:
